@@ -84,6 +84,10 @@ def raise_if(ctx, fr, cond, kind="Other"):
     c = AND(live(ctx, fr), cond)
     if c is False:
         return
+    if ctx.__dict__.get("prune_infeasible_raises") and c is not True and not feasible(ctx, c):
+        # opt-in (jobs whose run is concrete except for a few flags): a raise whose condition the solver refutes
+        # under the pre-state assumptions is dropped instead of making every later step conditional on it
+        return
     ctx.exc = OR(ctx.exc, c)
     if kind not in ctx.exc_kind:
         kind = "Other"
@@ -93,6 +97,8 @@ def raise_if(ctx, fr, cond, kind="Other"):
 def bound_if(ctx, fr, cond, why):
     c = AND(live(ctx, fr), cond)
     if c is False:
+        return
+    if ctx.__dict__.get("prune_infeasible_raises") and c is not True and not feasible(ctx, c):
         return
     ctx.bound = OR(ctx.bound, c)
     ctx.bound_why.append(why)
